@@ -134,6 +134,14 @@ def gen_config(rng, fam, out, i):
                 nw, nh = rng.randint(1, 9), rng.randint(1, 5)
                 if max(frame_bytes(nw, nh, streams[s]["type"]), 0) < cap:
                     prog += ["shape", str(s), str(nw), str(nh)]
+                    streams[s]["w2"], streams[s]["h2"] = nw, nh
+            if a > 0 and rng.random() < 0.4:
+                # another sample type at unchanged dimensions: only the bytes per pixel (and so the frame size) change
+                s = rng.randrange(ns)
+                nt = rng.choice([t for t in ["u8", "u16", "i8", "i16"] if t != streams[s].get("type2", streams[s]["type"])])
+                if frame_bytes(streams[s].get("w2", streams[s]["w"]), streams[s].get("h2", streams[s]["h"]), nt) < cap:
+                    prog += ["pixtype", str(s), nt]
+                    streams[s]["type2"] = nt
             prog += ["start"]
             mons = [s for s in range(ns) if rng.random() < 0.4]
             monitored |= set(mons)
@@ -217,6 +225,8 @@ def gen_config(rng, fam, out, i):
                 prog += monitor_ops(rng, 0, 2) + ["monitor", "0", "-1", "0"]
             prog += ["stop"]
     for s, d in enumerate(streams):
+        for k2 in ("w2", "h2", "type2"):
+            d.pop(k2, None)
         lines.append(fmt_stream(s, d))
     lines.append("prog " + " ".join(prog))
     if aborter:
@@ -305,6 +315,8 @@ def gen_lifecycle(rng, out, i):
         if rng.random() < 0.3:
             prog += ["yield", str(rng.choice([1, 5, 30, 120]))]
     for s, d in enumerate(streams):
+        for k2 in ("w2", "h2", "type2"):
+            d.pop(k2, None)
         lines.append(fmt_stream(s, d))
     lines.append("prog " + " ".join(prog))
     lines.append("out " + out)
@@ -693,6 +705,8 @@ def gen_lifecycle_refine(rng, out):
         else:
             prog += ["yield", str(rng.choice([1, 10, 60, 200]))]
     for s, d in enumerate(streams):
+        for k2 in ("w2", "h2", "type2"):
+            d.pop(k2, None)
         lines.append(fmt_stream(s, d))
     lines += ["prog " + " ".join(prog), "out " + out]
     fin = "F%d%d" % (1 if streams[0]["frames"] >= 0 else 0, 1 if streams[1]["frames"] >= 0 else 0)
